@@ -16,6 +16,7 @@ META = {
     'assumptions': ['the cryptographic primitives of the md4/md-5/hmac crates are correct', 'value-level acceptance by an MS-NLMP server is not decided'],
     'trusted_base': ['rustc nightly MIR construction', 'mirfacts exporter', 'rules/c15.py, dsl.py, sym.py, facts.py'],
 }
+META['explanation'] += " The timestamp handed to compute_response_v2 is the server's MsvAvTimestamp itself (no default for a missing one)."
 
 AUTH = 'nla::ntlm::authenticate_message'
 PARTS = [('LmChallengeResponse', 1), ('NtChallengeResponse', 2), ('DomainName', 3), ('UserName', 4), ('Workstation', 5), ('EncryptedRandomSession', 6)]
